@@ -181,6 +181,25 @@ Definition uint_from_le_slice (nbytes : N) (bs : bytes) : outcome N :=
 Definition vec_try_from_iter {A} (l : list A) : outcome (list A) := Ok l.
 Definition smallvec_try_from_iter {A} (l : list A) : outcome (list A) := Ok l.
 
+(** [BTreeSet::from_iter] under the item type's [Ord]: the elements in ascending order, a later element
+    that compares equal replaces the earlier one (std: "if the set did have an equal element present,
+    the new one replaces it" holds for [BTreeMap] values; for [BTreeSet] the two are indistinguishable by
+    [Ord], and SSZ items that compare equal encode equally for every key type of the crate). *)
+Fixpoint ord_insert {A} (cmp : A -> A -> comparison) (e : A) (l : list A) : list A :=
+  match l with
+  | [] => [e]
+  | x :: r =>
+      match cmp e x with
+      | Lt => e :: l
+      | Eq => e :: r
+      | Gt => x :: ord_insert cmp e r
+      end
+  end.
+Definition btreeset_from_iter {A} (cmp : A -> A -> comparison) (es : list A) : list A :=
+  fold_left (fun acc e => ord_insert cmp e acc) es [].
+Definition btreeset_try_from_iter {A} (cmp : A -> A -> comparison) (es : list A) : outcome (list A) :=
+  Ok (btreeset_from_iter cmp es).
+
 (** [v.remove(i)]: the element and the vector without it; panics when [i] is out of range *)
 Definition vec_remove {A} (l : list A) (i : N) : outcome (A * list A) :=
   match nth_error l (N.to_nat i) with
